@@ -246,6 +246,7 @@ package iavl
 //@   ensures [leaf-hit] err == nil && old(node.subtreeHeight) == 0 && old(ord(key)) == old(ord(node.key)) ==> removed && newSelf == nil && newKey == nil
 //@   ensures [leaf-miss] err == nil && old(node.subtreeHeight) == 0 && old(ord(key)) != old(ord(node.key)) ==> !removed && newSelf == node && newKey == nil
 //@   ensures [untouched-when-absent] err == nil && !removed ==> newSelf == node && newKey == nil
+//@   ensures [absent-key-rewrites-nothing] err == nil && !removed ==> calls("Tree).mutateNode") == 0 && calls("Tree).addOrphan") == 0 && calls("Tree).addDelete") == 0 && calls("Tree).returnNode") == 0
 //@   callsite Tree).recursiveRemove@1 [descend-left] ord(key) < ord(node.key)
 //@   callsite Tree).recursiveRemove@2 [descend-right] ord(key) >= ord(node.key)
 //@   callsite Tree).balance@1 [rebalance-after-left-removal] arg1 == node && removed && newLeftNode != nil
